@@ -1,3 +1,428 @@
-import Kurbo.Flatten
+import Proofs.Lemmas.C05
+import Proofs.Lemmas.C05Real
+import Proofs.Lemmas.C05Cubic
+import Proofs.Lemmas.C05Scale
+/-! C05 – flattening (`flatten`, `QuadBez::estimate_subdiv`, `determine_subdiv_t`; model: `Kurbo/Flatten.lean`).
+    Helper definitions (`PathEl.isFlat`, `flattenRun`, `flattenState`, `flattenStateAfter`, `flattenRuns`, `flattenFrom`,
+    `flattenQuadN`, `flattenQuadT`, `flattenCubicN`, `flattenCubicBuf`, `flattenCubicSum`, `PathEl.scaleBy`, the law
+    classes `LawfulSqrt`, `LawfulHypotR`) and lemmas: `Proofs/Lemmas/C05.lean`, `C05Real.lean`, `C05Cubic.lean`,
+    `C05Scale.lean`.
+
+    PROVED
+    * for EVERY `Scalar` (no arithmetic law; holds verbatim for `Float`):
+      - `flatten_kinds`: only `MoveTo`/`LineTo`/`ClosePath` are emitted;
+      - `flatten_runs`, `flatten_append`, `flattenState_spec`: the output is the concatenation of one run per input element,
+        in input order, each run a function of the element and of the state `(current point, sub-path start)` threaded
+        through the prefix;
+      - `flatten_passthrough`: the run of a move/line/close element is that element;
+      - `flatten_run_ends_exact_quad/_cubic`: with a current point the run of a curve element is non-empty, consists of
+        `LineTo`s only and ends with `LineTo` of the *stored* end point; `flatten_run_no_current_point`: without a current
+        point it is empty, and (`no_current_point_only_before_moveTo`) that can happen only before the first `MoveTo`;
+        `flatten_state_after_close`: after `ClosePath` the current point is the start of the closed sub-path;
+      - `flattenQuad_length` (exactly `max 1 ⌈½·val/√tol⌉` lines), `flattenCubic_length_le`
+        (at most `#quads·(n+2) + 1`, the fuel bound of the model – see the remark below);
+      - `quad_vertices_on_curve`, `cubic_vertices_on_quads`: every emitted vertex but the last is `eval t` of the source
+        quadratic / of the corresponding quadratic of `to_quads(tolerance/10)`, groups in the order of the quadratics.
+    * for a lawful scalar: `flattenQuadT_spec` (the parameters are `determine_subdiv_t params (i/n)`),
+      `determine_subdiv_t_zero_one`, `determine_subdiv_t_degenerate_zero`, `flattenQuad_eq_map_eval`,
+      `flattenQuad_degenerate` (collinear control points: `val = 0`, one line), `flattenCubic_length_lawful`
+      (all `val ≥ 0` ⇒ exactly `n` lines, loop parameters `u` strictly increasing in `[0,1)` per piece).
+    * over ℝ with `LawfulSqrt`: `approxParabolaInvIntegral_strictMono`, `approxParabolaIntegral_strictMono`,
+      `estimate_subdiv_nondegenerate_iff` (`a0 ≠ a2` iff the control points are not collinear),
+      `determine_subdiv_t_strictMono`, `determine_subdiv_t_monotone` (unconditional), `determine_subdiv_t_mapsTo`,
+      `quad_vertices_monotone` (strict, parameters in (0,1), non-collinear control points),
+      `quad_vertices_monotone_weak` (never backwards, parameters in [0,1], every quadratic),
+      `cubic_vertices_monotone` (per piece of `to_quads`, in order: strictly increasing `t ∈ [0,1)`; exactly `n` lines).
+    * over ℝ with `LawfulSqrt` and `LawfulHypotR`: `flattenQuad_scale`, `flattenCubic_scale`, `flatten_scale`
+      (scaling path by `k > 0` and tolerance by `k` scales the output, element by element).
+
+    NOT PROVED here
+    * the distance of the cubic's vertices to the cubic itself (that is `to_quads` accuracy, property C17) and that the
+      pieces of `to_quads` are in increasing cubic parameter (true by definition: piece `i` is the range `[i/n,(i+1)/n]`);
+    * the flattening error bound (chord–curve distance ≤ tolerance) – the parabola-integral heuristic is not an
+      exact bound (kurbo: "not absolutely guaranteed") and is not claimed.
+
+    REMARK on the cubic length for an arbitrary `Scalar`: the design note "a cubic run has at most n+1 points because of the
+    `i == n+1` break" is NOT a theorem of the model (nor of the Rust loop) without arithmetic: after the break the `for`
+    loop goes on and the `while` can be re-entered with `i = n+1`, where the break test `i == n+1` never fires again.
+    With lawful arithmetic and `val ≥ 0` the break is never reached at all and the count is exactly `n`
+    (`flattenCubic_length_lawful`); for an arbitrary `Scalar` only the fuel bound holds. -/
+set_option linter.unusedSectionVars false
 namespace Kurbo
+
+/-! ## structural part: any `Scalar` (also `Float`) -/
+section structural
+variable {K' : Type} [Scalar K']
+
+/-- only move, line and close elements are emitted -/
+theorem flatten_kinds (els : List (PathEl K')) (tol : K') : ∀ e ∈ flatten els tol, e.isFlat = true := by
+  rw [flatten_eq_flattenFrom]
+  exact flattenRuns_isFlat _ _ _
+
+/-- one run per input element, in input order; the `i`-th run depends on the `i`-th element and on the state after the
+    first `i` elements only -/
+theorem flatten_runs (els : List (PathEl K')) (tol : K') :
+    flatten els tol = (flattenRuns (none, none) els tol).flatten ∧
+    (flattenRuns (none, none) els tol).length = els.length ∧
+    ∀ (i : Nat) (hi : i < els.length),
+      (flattenRuns (none, none) els tol)[i]'(by rw [flattenRuns_length]; exact hi) =
+        flattenRun (flattenStateAfter (none, none) (els.take i)) els[i] tol (Scalar.sqrt tol) :=
+  ⟨flatten_eq_flattenFrom els tol, flattenRuns_length _ _ _, fun i hi => flattenRuns_getElem _ _ _ i hi⟩
+
+/-- flattening a concatenation = flattening the first part, then continuing from the state it left -/
+theorem flatten_append (a b : List (PathEl K')) (tol : K') :
+    flatten (a ++ b) tol = flatten a tol ++ flattenFrom (flattenStateAfter (none, none) a) b tol := by
+  rw [flatten_eq_flattenFrom, flatten_eq_flattenFrom]
+  unfold flattenFrom
+  rw [flattenRuns_append, List.flatten_append]
+
+/-- the threaded state is `(current point, sub-path start)` -/
+theorem flattenState_spec (st : Option (Point K') × Option (Point K')) (p p1 p2 p3 : Point K') :
+    flattenState st (.MoveTo p) = (some p, some p) ∧
+    flattenState st (.LineTo p) = (some p, st.2) ∧
+    flattenState st (.QuadTo p1 p2) = (some p2, st.2) ∧
+    flattenState st (.CurveTo p1 p2 p3) = (some p3, st.2) ∧
+    flattenState st .ClosePath = (st.2, st.2) ∧
+    ∀ (pre : List (PathEl K')) (el : PathEl K'),
+      flattenStateAfter (none, none) (pre ++ [el]) = flattenState (flattenStateAfter (none, none) pre) el :=
+  ⟨rfl, rfl, rfl, rfl, rfl, fun pre el => by rw [flattenStateAfter_append]; rfl⟩
+
+/-- move, line and close elements are passed through unchanged, whatever the state -/
+theorem flatten_passthrough (st : Option (Point K') × Option (Point K')) (tol sqrt_tol : K') (p : Point K') :
+    flattenRun st (.MoveTo p) tol sqrt_tol = [.MoveTo p] ∧
+    flattenRun st (.LineTo p) tol sqrt_tol = [.LineTo p] ∧
+    flattenRun st .ClosePath tol sqrt_tol = [.ClosePath] := ⟨rfl, rfl, rfl⟩
+
+/-- the run of a `QuadTo` ends exactly at the stored end point -/
+theorem flatten_run_ends_exact_quad (st : Option (Point K') × Option (Point K')) (p0 p1 p2 : Point K')
+    (tol sqrt_tol : K') (h : st.1 = some p0) :
+    flattenRun st (.QuadTo p1 p2) tol sqrt_tol = flattenQuad ⟨p0, p1, p2⟩ sqrt_tol ∧
+    flattenRun st (.QuadTo p1 p2) tol sqrt_tol ≠ [] ∧
+    (∀ e ∈ flattenRun st (.QuadTo p1 p2) tol sqrt_tol, ∃ p, e = PathEl.LineTo p) ∧
+    (flattenRun st (.QuadTo p1 p2) tol sqrt_tol).getLast? = some (PathEl.LineTo p2) := by
+  have e : flattenRun st (.QuadTo p1 p2) tol sqrt_tol = flattenQuad ⟨p0, p1, p2⟩ sqrt_tol := by
+    unfold flattenRun; simp only [h]
+  rw [e]
+  refine ⟨rfl, ?_, ?_, flattenQuad_getLast _ _⟩
+  · intro h0
+    have := flattenQuad_getLast (⟨p0, p1, p2⟩ : QuadBez K') sqrt_tol
+    rw [h0] at this; simp at this
+  · intro el hel
+    exact (PathEl.isLineTo_iff el).mp (flattenQuad_all_lineTo _ _ el hel)
+
+/-- the run of a `CurveTo` ends exactly at the stored end point -/
+theorem flatten_run_ends_exact_cubic (st : Option (Point K') × Option (Point K')) (p0 p1 p2 p3 : Point K')
+    (tol sqrt_tol : K') (h : st.1 = some p0) :
+    flattenRun st (.CurveTo p1 p2 p3) tol sqrt_tol = flattenCubic ⟨p0, p1, p2, p3⟩ tol sqrt_tol ∧
+    flattenRun st (.CurveTo p1 p2 p3) tol sqrt_tol ≠ [] ∧
+    (∀ e ∈ flattenRun st (.CurveTo p1 p2 p3) tol sqrt_tol, ∃ p, e = PathEl.LineTo p) ∧
+    (flattenRun st (.CurveTo p1 p2 p3) tol sqrt_tol).getLast? = some (PathEl.LineTo p3) := by
+  have e : flattenRun st (.CurveTo p1 p2 p3) tol sqrt_tol = flattenCubic ⟨p0, p1, p2, p3⟩ tol sqrt_tol := by
+    unfold flattenRun; simp only [h]
+  rw [e]
+  refine ⟨rfl, ?_, ?_, flattenCubic_getLast _ _ _⟩
+  · intro h0
+    have := flattenCubic_getLast (⟨p0, p1, p2, p3⟩ : CubicBez K') tol sqrt_tol
+    rw [h0] at this; simp at this
+  · intro el hel
+    exact (PathEl.isLineTo_iff el).mp (flattenCubic_all_lineTo _ _ _ el hel)
+
+/-- without a current point a curve element emits nothing (the crate's `if let Some(p0) = last_pt`) -/
+theorem flatten_run_no_current_point (st : Option (Point K') × Option (Point K')) (p1 p2 p3 : Point K')
+    (tol sqrt_tol : K') (h : st.1 = none) :
+    flattenRun st (.QuadTo p1 p2) tol sqrt_tol = [] ∧ flattenRun st (.CurveTo p1 p2 p3) tol sqrt_tol = [] := by
+  unfold flattenRun; simp only [h]; exact ⟨trivial, trivial⟩
+
+/-- … and there is a current point (and a sub-path start) after every prefix that contains a `MoveTo` -/
+theorem no_current_point_only_before_moveTo (pre : List (PathEl K'))
+    (h : (flattenStateAfter (none, none) pre).1 = none) : ∀ p, PathEl.MoveTo p ∉ pre := by
+  intro p hp
+  have := (flattenStateAfter_isSome_of_moveTo (none, none) pre p hp).1
+  rw [h] at this; simp at this
+
+/-- after `… MoveTo p … ClosePath` (no further `MoveTo` in between) the current point is `p` again: a curve element
+    directly after `ClosePath` is flattened from the start point of the closed sub-path, it is not dropped -/
+theorem flatten_state_after_close (pre mid : List (PathEl K')) (p p1 p2 : Point K') (tol : K')
+    (h : ∀ p', PathEl.MoveTo p' ∉ mid) :
+    flattenStateAfter (none, none) (pre ++ PathEl.MoveTo p :: (mid ++ [PathEl.ClosePath])) = (some p, some p) ∧
+    flattenRun (flattenStateAfter (none, none) (pre ++ PathEl.MoveTo p :: (mid ++ [PathEl.ClosePath])))
+      (.QuadTo p1 p2) tol (Scalar.sqrt tol) = flattenQuad ⟨p, p1, p2⟩ (Scalar.sqrt tol) := by
+  have e := flattenStateAfter_close (none, none) pre mid p h
+  exact ⟨e, by rw [e]; rfl⟩
+
+/-- a quadratic is flattened into exactly `n = max 1 (⌈½·val/√tol⌉ as usize)` lines -/
+theorem flattenQuad_length (q : QuadBez K') (sqrt_tol : K') :
+    (flattenQuad q sqrt_tol).length = flattenQuadN q sqrt_tol ∧
+    flattenQuadN q sqrt_tol = max 1 (Scalar.toUSize (Scalar.ceil
+      (Scalar.div (Scalar.mul (Scalar.ofRat (1/2)) (q.estimate_subdiv sqrt_tol).val) sqrt_tol))) :=
+  ⟨flattenQuad_length' q sqrt_tol, flattenQuadN_eq q sqrt_tol⟩
+
+/-- a cubic is flattened into at most `#quads·(n+2) + 1` lines (`n + 2` is the fuel of the model's inner loop; with
+    non-negative `val`s the loop emits `n − 1 … n` points in total, see the header) -/
+theorem flattenCubic_length_le (c : CubicBez K') (tolerance sqrt_tol : K') :
+    (flattenCubic c tolerance sqrt_tol).length ≤
+      (c.to_quads (Scalar.mul tolerance (Scalar.ofRat toQuadTol))).length * (flattenCubicN c tolerance sqrt_tol + 2) + 1 ∧
+    1 ≤ (flattenCubic c tolerance sqrt_tol).length := by
+  refine ⟨flattenCubic_length_le' c tolerance sqrt_tol, ?_⟩
+  rw [flattenCubic_eq]; simp
+
+/-- every vertex of a quadratic's run except the last is a point `q.eval t` of the quadratic; the last is the stored
+    end point -/
+theorem quad_vertices_on_curve (q : QuadBez K') (sqrt_tol : K') :
+    flattenQuad q sqrt_tol =
+      ((List.range (flattenQuadN q sqrt_tol - 1)).map fun k => PathEl.LineTo (q.eval (flattenQuadT q sqrt_tol (k + 1))))
+        ++ [PathEl.LineTo q.p2] ∧
+    ∀ i, flattenQuadT q sqrt_tol i = q.determine_subdiv_t (q.estimate_subdiv sqrt_tol)
+      (Scalar.mul (natK i) (Scalar.div (Scalar.ofRat ((1 : Nat) : Rat)) (natK (flattenQuadN q sqrt_tol)))) :=
+  ⟨flattenQuad_eq q sqrt_tol, fun _ => rfl⟩
+
+/-- the vertices of a cubic's run: one group per quadratic of `to_quads(tolerance·0.1)`, in their order, every vertex
+    of a group a point `q.eval t` of its quadratic; then the stored end point -/
+theorem cubic_vertices_on_quads (c : CubicBez K') (tolerance sqrt_tol : K') :
+    ∃ groups : List (List (PathEl K')),
+      flattenCubic c tolerance sqrt_tol = groups.flatten ++ [PathEl.LineTo c.p3] ∧
+      List.Forall₂ (fun (tq : K' × K' × QuadBez K') g =>
+        g.length ≤ flattenCubicN c tolerance sqrt_tol + 2 ∧ ∀ e ∈ g, ∃ t, e = PathEl.LineTo (tq.2.2.eval t))
+        (c.to_quads (Scalar.mul tolerance (Scalar.ofRat toQuadTol))) groups :=
+  flattenCubic_groups c tolerance sqrt_tol
+
+/-! non-vacuity: states with and without a current point -/
+example : (flattenStateAfter (none, none) [PathEl.MoveTo (⟨0, 0⟩ : Point Rat), .LineTo ⟨1, 0⟩]).1 = some ⟨1, 0⟩ := rfl
+example : (flattenStateAfter (none, none) [PathEl.LineTo (⟨1, 0⟩ : Point Rat), .ClosePath]).1 = none := rfl
+example : (flattenStateAfter (none, none) ([] : List (PathEl Rat))).1 = none := rfl
+example : ∀ p', PathEl.MoveTo p' ∉ [PathEl.LineTo (⟨1, 0⟩ : Point Rat), .QuadTo ⟨1, 1⟩ ⟨2, 0⟩] := by simp
+example : flattenRun (some (⟨0, 0⟩ : Point Rat), none) (.QuadTo ⟨1, 1⟩ ⟨2, 0⟩) (1/100) (1/10) ≠ [] :=
+  (flatten_run_ends_exact_quad _ ⟨0, 0⟩ ⟨1, 1⟩ ⟨2, 0⟩ _ _ rfl).2.1
+
+end structural
+
+/-! ## lawful scalar: the subdivision parameters -/
+section lawful
+variable {K : Type} [Field K] [LinearOrder K] [IsStrictOrderedRing K] [FloorRing K] [Scalar K] [LawfulScalar K]
+
+/-- the `i`-th vertex of a quadratic's run has parameter `determine_subdiv_t params (i/n)` -/
+theorem flattenQuadT_spec (q : QuadBez K) (s : K) (i : Nat) :
+    flattenQuadT q s i = q.determine_subdiv_t (q.estimate_subdiv s) ((i : K) / (flattenQuadN q s : K)) :=
+  flattenQuadT_lawful q s i
+
+/-- the parameter map sends 0 to 0, and 1 to 1 unless the two end images `u0`, `u2` coincide -/
+theorem determine_subdiv_t_zero_one (q : QuadBez K) (s : K) :
+    q.determine_subdiv_t (q.estimate_subdiv s) 0 = 0 ∧
+    (approxParabolaInvIntegral (q.estimate_subdiv s).a0 ≠ approxParabolaInvIntegral (q.estimate_subdiv s).a2 →
+      q.determine_subdiv_t (q.estimate_subdiv s) 1 = 1) :=
+  ⟨determine_subdiv_t_zero q _ (estimate_subdiv_u0 q s),
+   determine_subdiv_t_one q _ (estimate_subdiv_u0 q s) (estimate_subdiv_uscale q s)⟩
+
+/-- if the end images coincide (`uscale = 1/0 = 0`) every parameter is 0: all interior vertices are `q.eval 0` -/
+theorem determine_subdiv_t_degenerate_zero (q : QuadBez K) (s : K)
+    (h : approxParabolaInvIntegral (q.estimate_subdiv s).a0 = approxParabolaInvIntegral (q.estimate_subdiv s).a2) (x : K) :
+    q.determine_subdiv_t (q.estimate_subdiv s) x = 0 :=
+  determine_subdiv_t_degenerate q _ (estimate_subdiv_uscale q s) h x
+
+/-- in the non-degenerate case the whole run, last vertex included, is `q.eval (t i)`, `i = 1..n` (the last vertex is
+    emitted as the stored `p2`, which is `q.eval 1 = q.eval (t n)`) -/
+theorem flattenQuad_eq_map_eval (q : QuadBez K) (s : K)
+    (h : approxParabolaInvIntegral (q.estimate_subdiv s).a0 ≠ approxParabolaInvIntegral (q.estimate_subdiv s).a2) :
+    flattenQuad q s = (List.range (flattenQuadN q s)).map fun k => PathEl.LineTo (q.eval (flattenQuadT q s (k + 1))) := by
+  have hn := flattenQuadN_pos q s
+  obtain ⟨m, hm⟩ : ∃ m, flattenQuadN q s = m + 1 := ⟨flattenQuadN q s - 1, by omega⟩
+  rw [flattenQuad_eq]
+  have hlast : flattenQuadT q s (m + 1) = 1 := by
+    rw [flattenQuadT_lawful, hm]
+    have : ((m + 1 : Nat) : K) / ((m + 1 : Nat) : K) = 1 := div_self (by positivity)
+    rw [this]
+    exact (determine_subdiv_t_zero_one q s).2 h
+  rw [hm, Nat.add_sub_cancel, List.range_succ, List.map_append, List.map_singleton]
+  rw [hlast, quad_eval_one]
+
+/-- collinear control points (`cross = 0`): `val = 0` and – given `0 as usize = 0`, which holds for ℚ, ℝ and f64 – the run
+    is the single line to the stored end point -/
+theorem flattenQuad_degenerate (q : QuadBez K) (s : K)
+    (h : (q.p1.x - q.p0.x) * (q.p2.y - q.p0.y) - (q.p1.y - q.p0.y) * (q.p2.x - q.p0.x) = 0)
+    (hz : Scalar.toUSize (0 : K) = 0) :
+    (q.estimate_subdiv s).val = 0 ∧ flattenQuadN q s = 1 ∧ flattenQuad q s = [PathEl.LineTo q.p2] :=
+  flattenQuad_degenerate' q s h hz
+
+example : Scalar.toUSize (0 : Rat) = 0 := rfl
+example : let q : QuadBez Rat := ⟨⟨0, 0⟩, ⟨1, 1⟩, ⟨3, 3⟩⟩
+    (q.p1.x - q.p0.x) * (q.p2.y - q.p0.y) - (q.p1.y - q.p0.y) * (q.p2.x - q.p0.x) = 0 := by norm_num
+
+/-- a cubic all of whose quadratic pieces have `val ≥ 0` (true over ℝ for `sqrt_tol ≥ 0`, see `cubic_vertices_monotone`)
+    is flattened into exactly `n` lines (one line if all `val`s are 0): the `i == n + 1` break is never taken and the
+    loop never re-enters after it; every piece's group of vertices has strictly increasing loop parameters
+    `u = (i·step − val_sum)/val ∈ [0,1)` -/
+theorem flattenCubic_length_lawful (c : CubicBez K) (tol s : K)
+    (hval : ∀ qp ∈ flattenCubicBuf c tol s, 0 ≤ qp.2.val) :
+    ∃ groups : List (List (PathEl K)),
+      flattenCubic c tol s = groups.flatten ++ [PathEl.LineTo c.p3] ∧
+      List.Forall₂ (fun (qp : QuadBez K × FlattenParams K) g =>
+        ∃ us : List K, g = us.map (fun u => PathEl.LineTo (qp.1.eval (qp.1.determine_subdiv_t qp.2 u))) ∧
+          us.Pairwise (· < ·) ∧ (∀ u ∈ us, 0 ≤ u ∧ u < 1) ∧ (us ≠ [] → 0 < qp.2.val))
+        (flattenCubicBuf c tol s) groups ∧
+      (flattenCubic c tol s).length = if 0 < flattenCubicSum c tol s then flattenCubicN c tol s else 1 :=
+  flattenCubic_exact c tol s hval
+
+end lawful
+
+/-! ## over ℝ: monotonicity -/
+section real
+variable [Scalar ℝ] [LawfulScalar ℝ] [LawfulSqrt]
+
+/-- `x ↦ x·(1 − B + √(B² + x²/4))` (B = 0.39) is strictly increasing -/
+theorem approxParabolaInvIntegral_strictMono :
+    (∀ x : ℝ, approxParabolaInvIntegral x = x * (1 - 39/100 + Real.sqrt ((39/100) ^ 2 + x ^ 2 / 4))) ∧
+    StrictMono (fun x : ℝ => approxParabolaInvIntegral x) := by
+  refine ⟨fun x => approxParabolaInvIntegral_real x, ?_⟩
+  intro x y hxy
+  simp only [approxParabolaInvIntegral_real]
+  exact invIntR_strictMono hxy
+
+/-- `x ↦ x / (1 − D + ⁴√(D⁴ + x²/4))` (D = 0.67) is strictly increasing -/
+theorem approxParabolaIntegral_strictMono :
+    (∀ x : ℝ, approxParabolaIntegral x = x / (1 - 67/100 + Real.sqrt (Real.sqrt ((67/100) ^ 4 + x ^ 2 / 4)))) ∧
+    StrictMono (fun x : ℝ => approxParabolaIntegral x) := by
+  refine ⟨fun x => approxParabolaIntegral_real x, ?_⟩
+  intro x y hxy
+  simp only [approxParabolaIntegral_real]
+  exact intR_strictMono hxy
+
+/-- the two end values `a0`, `a2` differ exactly when the control points are not collinear -/
+theorem estimate_subdiv_nondegenerate_iff (q : QuadBez ℝ) (s : ℝ) :
+    (q.estimate_subdiv s).a0 ≠ (q.estimate_subdiv s).a2 ↔
+      (q.p1.x - q.p0.x) * (q.p2.y - q.p0.y) - (q.p1.y - q.p0.y) * (q.p2.x - q.p0.x) ≠ 0 :=
+  estimate_subdiv_a0_ne_a2_iff q s
+
+/-- for `a0 ≠ a2` (either order!) the parameter map is strictly increasing, with value 0 at 0 and 1 at 1 -/
+theorem determine_subdiv_t_strictMono (q : QuadBez ℝ) (s : ℝ)
+    (h : (q.estimate_subdiv s).a0 ≠ (q.estimate_subdiv s).a2) :
+    StrictMono (fun x : ℝ => q.determine_subdiv_t (q.estimate_subdiv s) x) ∧
+    q.determine_subdiv_t (q.estimate_subdiv s) 0 = 0 ∧ q.determine_subdiv_t (q.estimate_subdiv s) 1 = 1 :=
+  ⟨fun _ _ hxy => determine_subdiv_t_lt q _ (estimate_subdiv_wf q s) h hxy,
+   (determine_subdiv_t_zero_one q s).1, (determine_subdiv_t_zero_one q s).2 (invInt_ne_of_ne _ _ h)⟩
+
+/-- without any hypothesis the parameter map never goes backwards (it is constantly 0 when `a0 = a2`) -/
+theorem determine_subdiv_t_monotone (q : QuadBez ℝ) (s : ℝ) :
+    Monotone (fun x : ℝ => q.determine_subdiv_t (q.estimate_subdiv s) x) :=
+  fun _ _ hxy => determine_subdiv_t_le q _ (estimate_subdiv_wf q s) hxy
+
+/-- … and maps [0,1] into [0,1] -/
+theorem determine_subdiv_t_mapsTo (q : QuadBez ℝ) (s : ℝ) (x : ℝ) (h0 : 0 ≤ x) (h1 : x ≤ 1) :
+    0 ≤ q.determine_subdiv_t (q.estimate_subdiv s) x ∧ q.determine_subdiv_t (q.estimate_subdiv s) x ≤ 1 := by
+  by_cases hne : (q.estimate_subdiv s).a0 = (q.estimate_subdiv s).a2
+  · rw [determine_subdiv_t_degenerate_zero q s (by rw [hne]) x]
+    exact ⟨le_rfl, zero_le_one⟩
+  · obtain ⟨-, e0, e1⟩ := determine_subdiv_t_strictMono q s hne
+    have m := determine_subdiv_t_monotone q s
+    exact ⟨e0 ▸ m h0, e1 ▸ m h1⟩
+
+/-- the vertices of a quadratic with non-collinear control points advance strictly: the parameters
+    `t i = determine_subdiv_t params (i/n)` satisfy `t 0 = 0`, `t n = 1`, `t i < t j` for `i < j ≤ n`; in particular the
+    interior ones (`0 < i < n`) lie strictly between 0 and 1 -/
+theorem quad_vertices_monotone (q : QuadBez ℝ) (s : ℝ)
+    (h : (q.p1.x - q.p0.x) * (q.p2.y - q.p0.y) - (q.p1.y - q.p0.y) * (q.p2.x - q.p0.x) ≠ 0) :
+    flattenQuadT q s 0 = 0 ∧ flattenQuadT q s (flattenQuadN q s) = 1 ∧
+    (∀ i j, i < j → j ≤ flattenQuadN q s → flattenQuadT q s i < flattenQuadT q s j) ∧
+    (∀ i, 0 < i → i < flattenQuadN q s → 0 < flattenQuadT q s i ∧ flattenQuadT q s i < 1) := by
+  have hne := (estimate_subdiv_nondegenerate_iff q s).mpr h
+  obtain ⟨hm, e0, e1⟩ := determine_subdiv_t_strictMono q s hne
+  have hn := flattenQuadN_pos q s
+  have hnpos : (0 : ℝ) < (flattenQuadN q s : ℝ) := by exact_mod_cast hn
+  have t0 : flattenQuadT q s 0 = 0 := by rw [flattenQuadT_lawful]; simpa using e0
+  have tn : flattenQuadT q s (flattenQuadN q s) = 1 := by
+    rw [flattenQuadT_lawful, div_self hnpos.ne']; exact e1
+  have tlt : ∀ i j, i < j → flattenQuadT q s i < flattenQuadT q s j := by
+    intro i j hij
+    rw [flattenQuadT_lawful, flattenQuadT_lawful]
+    apply hm
+    apply div_lt_div_of_pos_right _ hnpos
+    exact_mod_cast hij
+  refine ⟨t0, tn, fun i j hij _ => tlt i j hij, fun i hi hin => ?_⟩
+  exact ⟨t0 ▸ tlt 0 i hi, tn ▸ tlt i _ hin⟩
+
+/-- for every quadratic (also degenerate ones) the vertices never go backwards and the parameters stay in [0,1] -/
+theorem quad_vertices_monotone_weak (q : QuadBez ℝ) (s : ℝ) :
+    (∀ i j, i ≤ j → flattenQuadT q s i ≤ flattenQuadT q s j) ∧
+    (∀ i, i ≤ flattenQuadN q s → 0 ≤ flattenQuadT q s i ∧ flattenQuadT q s i ≤ 1) := by
+  have hn := flattenQuadN_pos q s
+  have hnpos : (0 : ℝ) < (flattenQuadN q s : ℝ) := by exact_mod_cast hn
+  constructor
+  · intro i j hij
+    rw [flattenQuadT_lawful, flattenQuadT_lawful]
+    apply determine_subdiv_t_monotone q s
+    apply div_le_div_of_nonneg_right _ hnpos.le
+    exact_mod_cast hij
+  · intro i hi
+    rw [flattenQuadT_lawful]
+    apply determine_subdiv_t_mapsTo
+    · positivity
+    · rw [div_le_one hnpos]; exact_mod_cast hi
+
+/-- the vertices of a cubic's run (`sqrt_tol ≥ 0`): one group per quadratic of `to_quads(tolerance·0.1)`, in their order;
+    inside a group the vertices are `q.eval t` with strictly increasing `t ∈ [0,1)`; then the stored end point.
+    The run has exactly `n` lines (1 if `Σ val = 0`) -/
+theorem cubic_vertices_monotone (c : CubicBez ℝ) (tol s : ℝ) (hs : 0 ≤ s) :
+    ∃ groups : List (List (PathEl ℝ)),
+      flattenCubic c tol s = groups.flatten ++ [PathEl.LineTo c.p3] ∧
+      List.Forall₂ (fun (tq : ℝ × ℝ × QuadBez ℝ) g =>
+        ∃ ts : List ℝ, g = ts.map (fun t => PathEl.LineTo (tq.2.2.eval t)) ∧ ts.Pairwise (· < ·) ∧
+          ∀ t ∈ ts, 0 ≤ t ∧ t < 1)
+        (c.to_quads (Scalar.mul tol (Scalar.ofRat toQuadTol))) groups ∧
+      (flattenCubic c tol s).length = if 0 < flattenCubicSum c tol s then flattenCubicN c tol s else 1 :=
+  flattenCubic_mono c tol s hs
+
+/-- inside `flatten` the hypothesis `sqrt_tol ≥ 0` of `cubic_vertices_monotone` always holds -/
+theorem flatten_sqrt_tol_nonneg (tol : ℝ) : 0 ≤ (Scalar.sqrt tol : ℝ) := by
+  rw [LawfulSqrt.sqrt_eq]; exact Real.sqrt_nonneg tol
+
+end real
+
+/-! ## over ℝ: scaling -/
+section scale
+variable [Scalar ℝ] [LawfulScalar ℝ] [LawfulSqrt] [LawfulHypotR]
+
+/-- scaling a quadratic by `k > 0` and the tolerance by `k` (so `sqrt_tol` by `√k`) scales its run: same number of
+    lines, same curve parameters -/
+theorem flattenQuad_scale (k : ℝ) (hk : 0 < k) (q : QuadBez ℝ) (s : ℝ) :
+    flattenQuad (q.scaleBy k) (Real.sqrt k * s) = (flattenQuad q s).map (PathEl.scaleBy k) ∧
+    flattenQuadN (q.scaleBy k) (Real.sqrt k * s) = flattenQuadN q s ∧
+    ∀ i, flattenQuadT (q.scaleBy k) (Real.sqrt k * s) i = flattenQuadT q s i :=
+  ⟨flattenQuad_scale' k hk q s, flattenQuadN_scale k hk q s, flattenQuadT_scale k hk q s⟩
+
+/-- the same for a cubic (`to_quads` chooses the same number of pieces, the pieces are the scaled pieces) -/
+theorem flattenCubic_scale (k : ℝ) (hk : 0 < k) (c : CubicBez ℝ) (tol s : ℝ) :
+    flattenCubic (c.scaleBy k) (k * tol) (Real.sqrt k * s) = (flattenCubic c tol s).map (PathEl.scaleBy k) :=
+  flattenCubic_scale' k hk c tol s
+
+/-- scaling path and tolerance together scales the output -/
+theorem flatten_scale (k : ℝ) (hk : 0 < k) (els : List (PathEl ℝ)) (tol : ℝ) :
+    flatten (els.map (PathEl.scaleBy k)) (k * tol) = (flatten els tol).map (PathEl.scaleBy k) :=
+  flatten_scale' k hk els tol
+
+end scale
+
+/-! non-vacuity of the ℝ section: the instance, and a quadratic with non-collinear control points -/
+example : @LawfulScalar ℝ _ _ _ _ realScalarC05 ∧ @LawfulSqrt realScalarC05 ∧ @LawfulHypotR realScalarC05 :=
+  ⟨realScalarC05_lawful, realScalarC05_lawfulSqrt, realScalarC05_lawfulHypot⟩
+/-- the hypothesis of `flattenCubic_length_lawful` holds for every cubic over ℝ when `sqrt_tol ≥ 0` -/
+example (c : CubicBez ℝ) (tol : ℝ) : letI := realScalarC05
+    ∀ qp ∈ flattenCubicBuf c tol (1/10), 0 ≤ qp.2.val := by
+  let _ := realScalarC05
+  have _ := realScalarC05_lawful
+  have _ := realScalarC05_lawfulSqrt
+  exact flattenCubicBuf_val_nonneg c tol (1/10) (by norm_num)
+example : let q : QuadBez ℝ := ⟨⟨-1, 1⟩, ⟨0, -1⟩, ⟨1, 1⟩⟩
+    (q.p1.x - q.p0.x) * (q.p2.y - q.p0.y) - (q.p1.y - q.p0.y) * (q.p2.x - q.p0.x) ≠ 0 := by
+  norm_num
+/-- the hypothesis of `determine_subdiv_t_zero_one`/`flattenQuad_eq_map_eval` holds for that quadratic -/
+example : letI := realScalarC05
+    let q : QuadBez ℝ := ⟨⟨-1, 1⟩, ⟨0, -1⟩, ⟨1, 1⟩⟩
+    approxParabolaInvIntegral (q.estimate_subdiv (1/10)).a0 ≠ approxParabolaInvIntegral (q.estimate_subdiv (1/10)).a2 := by
+  let _ := realScalarC05
+  have _ := realScalarC05_lawful
+  have _ := realScalarC05_lawfulSqrt
+  intro q
+  apply invInt_ne_of_ne
+  rw [estimate_subdiv_nondegenerate_iff]
+  norm_num [q]
+
 end Kurbo
